@@ -5,7 +5,7 @@
     engine vs the naive Gallina model, after every command. *)
 From Coq Require Import List Arith PeanoNat Bool.
 Import ListNotations.
-Require Import Verif.gen.SourceFacts Verif.Semi.Delta.
+Require Import Verif.gen.SourceFacts Verif.Semi.Delta Verif.Semi.History.
 
 Theorem c03_old_is_not_new : forall mid ts, is_old mid ts = negb (is_new mid ts).
 Proof. exact old_is_not_new. Qed.
@@ -25,6 +25,33 @@ Print Assumptions c03_first_run_late.
 Theorem c03_sole_focus_same : semi_sole_focus = semi_focus.
 Proof. exact sole_focus_same. Qed.
 Print Assumptions c03_sole_focus_same.
+
+(** "each rule keeps its own last-run timestamp": with the frontier `run_rules_impl` uses NOW
+    ([semi_frontier_src], [semi_frontier_advances_own]: regenerated from egglog-bridge/src/lib.rs),
+    over ANY history of batches (any rules in any batch, any interleaving of rulesets, a rule run
+    for the first time long after its inputs were written) with a clock that never goes back,
+    every match older than its rule's stamp has fired exactly once and no other match has fired *)
+Theorem c03_history_exactly_once : forall h,
+  clocks_from 0 h ->
+  let '(st, ws) := run_history semi_frontier_src semi_frontier_advances_own h (fun _ => 0) [] in
+  forall r t, fired r t ws = if Nat.ltb t (st r) then 1 else 0.
+Proof. exact source_frontier_exactly_once. Qed.
+Print Assumptions c03_history_exactly_once.
+
+(** a rule that has just run has nothing pending that is older than the clock *)
+Theorem c03_run_catches_up : forall batch next st ws c r,
+  c <= next -> inv c st ws -> In r batch ->
+  let '(st', ws') := run_batch FOwnLastRun true batch batch next st ws in
+  forall t, t < next -> fired r t ws' = 1.
+Proof. exact own_frontier_run_catches_up. Qed.
+Print Assumptions c03_run_catches_up.
+
+(** non-vacuity: one frontier for a whole batch loses a match *)
+Theorem c03_batch_frontier_refuted :
+  let '(st, ws) := run_history FNotOwn true [mkRun [1] 5; mkRun [0; 1] 7] (fun _ => 0) [] in
+  fired 0 2 ws = 0 /\ st 0 = 7.
+Proof. exact batch_frontier_loses_a_match. Qed.
+Print Assumptions c03_batch_frontier_refuted.
 
 Example c03_example : variant 5 1 [3; 7; 2] = true /\ variant 5 0 [3; 7; 2] = false
                       /\ variant 5 2 [3; 7; 2] = false /\ all_old 5 [3; 4; 2] = true.
